@@ -533,6 +533,20 @@ func (e *specEnv) evalCall(n ECall) Val {
 			return Val{S: "true", Sort: "Bool"}
 		}
 		return Val{S: "false", Sort: "Bool"}
+	case "callcount":
+		if e.st == nil || len(n.Args) != 1 {
+			e.fail("callcount(name) needs a path state")
+		}
+		return Val{S: itoa(e.st.ncalls[exprString(n.Args[0])]), Sort: "Int"}
+	case "lastresult":
+		// lastresult(f): what the most recent call of f on this path returned (false if f was not called: use with called(f))
+		if e.st == nil || len(n.Args) != 1 {
+			e.fail("lastresult(name) needs a path state")
+		}
+		if v, ok := e.st.lastRet[exprString(n.Args[0])]; ok && v.S != "" {
+			return v
+		}
+		return Val{S: "false", Sort: "Bool"}
 	case "contains":
 		a, b := e.eval(n.Args[0]), e.eval(n.Args[1])
 		return Val{S: "(str.contains " + a.S + " " + b.S + ")", Sort: "Bool"}
